@@ -296,6 +296,7 @@ class Gen:
             add("sum", lambda g, sc, d: C("sum", g("arr:num")))
             add("parse_time", lambda g, sc, d: C("parse_time", g("str") if r.random() < 0.2 else
                                                   C("format_time", g("epoch"), ("lit", "%Y-%m-%d %H:%M:%S")), ("lit", "%Y-%m-%d %H:%M:%S")))
+            add("parse_time", lambda g, sc, d: self.mk_parse_time_frac())
             add("parse_time_with_zone", lambda g, sc, d: C("parse_time_with_zone", g("str") if r.random() < 0.2 else
                                                            C("concat", C("format_time", g("epoch"), ("lit", "%F %T")), ("lit", r.choice((" +0000", " +0530", " -0800")))),
                                                            ("lit", "%F %T %z")))
@@ -359,6 +360,21 @@ class Gen:
             add("take", lambda g, sc, d: C(r.choice(("take", "take_last")), g("obj"), g("int")))
             add("sub", lambda g, sc, d: C("sub", g("obj"), g("int"), g("int")))
         return M
+
+    def mk_parse_time_frac(self):
+        """parse_time / parse_time_with_zone on a literal with fractional seconds (%.f, %.3f, %.6f, %.9f)."""
+        r = self.rng
+        spec, nd = r.choice((("%.f", r.choice((1, 2, 3, 4, 5, 6))), ("%.3f", 3), ("%.6f", 6), ("%.9f", 9), ("%.f", 6), ("%.6f", 6)))
+        digits = "".join(r.choice("0123456789") for _ in range(min(nd, 6))) + "0" * max(0, nd - 6)
+        if r.random() < 0.3:
+            digits = r.choice(("000250", "360123", "000001", "999999", "500000", "0004"))[:nd].ljust(nd, "0") if nd >= 4 else digits
+        date = r.choice(("1970-01-01 00:00:01", "2023-12-03 13:51:55", "2001-09-09 01:46:40", "1999-12-31 23:59:59", "2038-01-19 03:14:07"))
+        base = r.choice(("%Y-%m-%d %H:%M:%S", "%F %T"))
+        if r.random() < 0.4:
+            zone = r.choice((" +0000", " +0530", " -0800"))
+            self.used.add("parse_time_with_zone")
+            return ("call", "parse_time_with_zone", (("lit", date + "." + digits + zone), ("lit", base + spec + " %z")))
+        return ("call", "parse_time", (("lit", date + "." + digits), ("lit", base + spec)))
 
     def as_name(self, kind):
         return {"num": "number", "int": "number", "str": "string", "nas": "string", "bool": "boolean", "obj": "object", "eobj": "object"}.get(
